@@ -367,3 +367,35 @@ Proof.
   - destruct (H FPush (or_introl eq_refl)) as [A _]. now elim A.
   - destruct (H FPop (or_introl eq_refl)) as [_ A]. now elim A.
 Qed.
+
+(* ------------------------------------------------------------------------------------------ *)
+(* 5. label names.  Known defect (finding c13 duplicate label_0r): the "r" label of target 0 and
+      the "r" label of target 1 get the same name. *)
+
+Definition labels_distinct (times : list Z) (jumps : list (nat * option Z)) : Prop :=
+  forall i j a b, label_for times jumps i = Some a -> label_for times jumps j = Some b ->
+                  l_id a = l_id b -> i = j.
+
+Lemma labels_distinct_all_scripts_refuted : exists times jumps, ~ labels_distinct times jumps.
+Proof.
+  exists [5; 9], [(0%nat, Some 0); (1%nat, Some 5)]. intros H.
+  specialize (H 0%nat 1%nat {| l_id := 1; l_time := 0 |} {| l_id := 1; l_time := 5 |}).
+  assert (E : 0%nat = 1%nat) by (apply H; vm_compute; reflexivity). discriminate.
+Qed.
+
+Lemma label_for_id times jumps i lb : label_for times jumps i = Some lb -> exists r, l_id lb = label_id r i.
+Proof.
+  unfold label_for. destruct (map snd (filter _ jumps)) as [|a args]; [discriminate|].
+  destruct (label_at_offset _ _ (a :: args)) as [is_r t]. intros E. inversion E. now exists is_r.
+Qed.
+
+Lemma labels_distinct_guarded : forall times jumps,
+  (forall lb, label_for times jumps 0 = Some lb -> l_id lb = 0) -> labels_distinct times jumps.
+Proof.
+  intros times jumps G i j a b Ha Hb E.
+  destruct (label_for_id _ _ _ _ Ha) as [ra Ra]. destruct (label_for_id _ _ _ _ Hb) as [rb Rb].
+  destruct i as [|i]; destruct j as [|j]; auto.
+  - rewrite (G a Ha) in E. rewrite Rb in E. unfold label_id in E. destruct rb; lia.
+  - rewrite (G b Hb) in E. rewrite Ra in E. unfold label_id in E. destruct ra; lia.
+  - rewrite Ra, Rb in E. unfold label_id in E. destruct ra, rb; destruct i, j; lia.
+Qed.
